@@ -29,6 +29,9 @@ TxtDefects(v, r) ==
             [op |-> "toktxt", i |-> i, s |-> s \o "{*}[2]\n \"x_99999999999999999999\"\n"],    \* overlong pdf id
             [op |-> "toktxt", i |-> i, s |-> s \o "{*}[2]\n \"x_0\"\n"],                       \* pdf id 0 (1-based index)
             [op |-> "toktxt", i |-> i, s |-> s \o "{*}[2]\n \"x_7\"\n"],                       \* pdf id beyond the block
+            [op |-> "toktxt", i |-> i, s |-> s \o "{*}[9]\n{\n}\n"],                              \* a tree with an empty body
+            [op |-> "toktxt", i |-> i, s |-> "{*}[2]\n{\n}\n"],                                   \* ... as the only tree
+            [op |-> "toktxt", i |-> i, s |-> "{*}[2]\n{\n \n}\n"],
             [op |-> "toktxt", i |-> i, s |-> SubSeq(s, 1, Len(s) \div 2)],                    \* half of the text
             [op |-> "toktxt", i |-> i, s |-> ""],                                            \* empty text
             [op |-> "toktxt", i |-> i, s |-> "5 1.0 2.0"],                                   \* a window row that announces more than it holds
